@@ -63,6 +63,7 @@ def run(F, rep, tier):
     guard(F, rep)
     union_find(F, rep)
     census(F, rep, contracts)
+    unsigned_sub(F, rep)
 
 
 # --------------------------------------------------------------------------- helpers
@@ -624,7 +625,41 @@ def guard(F, rep):
                    name, "and consults its visited set `%s` first" % pat_bindings(seen_params[0]["pat"])[0]["name"] if seen_params and consulted else
                    "without a visited set: unification performs no occurs check, so a cyclic type (t = (t, 1)) makes it recurse until "
                    "the native stack overflows (process abort)"), fn["sp"])
+        # the visited set is keyed on the nodes of the call: it only ends the recursion if no arm keeps inventing new
+        # nodes to recurse on (or takes entries out of the set again)
+        fresh_rec = None
+        removes = [c for c in nodes(body, "MethodCall") if c["m"] == "remove" and seen_params
+                   and any(peel(c["recv"]).get("hid") == b["hid"] for prm in seen_params for b in pat_bindings(prm["pat"]))]
+        for m in nodes(body, "Match"):
+            for arm in m["arms"]:
+                makes = [c for c in nodes(arm["body"], "MethodCall") if callee(c) == TCP + "push_type"]
+                recs = [c for c in nodes(arm["body"], "MethodCall") if callee(c) == p]
+                if makes and recs:
+                    fresh_rec = arm
+        if seen_params and consulted:
+            rep.ob("GUARD", name + "|guard-key-is-stable", fresh_rec is None and not removes,
+                   ("no arm of TypeChecker::%s creates type nodes and recurses, or un-marks a visited pair" % name)
+                   if fresh_rec is None and not removes else
+                   ("an arm of TypeChecker::%s creates fresh type nodes and recurses on them%s: the visited set is keyed on the "
+                    "node pair, and one half of the pair is new at every level, so on a cyclic type (`x = (x,)`, then `x / 2`) the "
+                    "recursion never meets a visited pair and ends in a native stack overflow"
+                    % (name, " (and removes the current pair from the set)" if removes else "")),
+                   line_of(fresh_rec) if fresh_rec else fn["sp"])
     rep.floor("GUARD", "functions recursing over type components", n, 8)
+    # unfolding the type *graph* (nodes shared through TyID) into an owned *tree*: the visited map stops cycles but not
+    # sharing, so the tree of `a30` in `a0 := (1, 1); a1 := (a0, a0); ..` has 2^31 leaves unless depth or size is bounded
+    for p, fn in sorted(fns.items()):
+        if p not in calls[p]:
+            continue
+        ret = fn.get("ret") or ""
+        if "sylt_common::ty::Type" not in ret:
+            continue
+        budget = [prm for prm in fn["params"] if prm["ty"].strip() in ("usize", "u32", "i32", "u64")]
+        rep.ob("GUARD", last(p) + "|output-size-bounded", bool(budget),
+               ("TypeChecker::%s carries a numeric budget (%s)" % (last(p), budget[0]["ty"])) if budget else
+               ("TypeChecker::%s unfolds shared type nodes into an owned tree (every use of a node is cloned into the result) "
+                "with no bound on depth or size: rendering one type error about a value built by 30 lines of "
+                "`a{i} := (a{i-1}, a{i-1})` needs about a terabyte and the process aborts" % last(p)), fn["sp"])
     # dependency::order::recurse is guarded by its state map
     fr = F.fn("sylt_compiler::dependency::order::recurse")
     t = pp(fn_body(fr))
@@ -781,3 +816,54 @@ def guarded(n, parents):
             if ("contains_key" in c or "is_empty" in c or "len()" in c or "is_some" in c) and txt.split("[")[0].split(".")[0] in c:
                 return "guarded"
     return None
+
+
+# --------------------------------------------------------------------------- unsigned subtraction
+
+UNSIGNED_SUB = {
+    # (function, "lhs Sub rhs" as printed): why lhs >= rhs
+    ("error::write_source_line_from_file_at", "((line Add 1) Sub start_line)"): "start_line = max(line - 2 (saturating), 1) <= line + 1",
+    ("error::write_source_line_from_file_at", "(start_line Sub 1)"): "start_line = max(.., 1) >= 1",
+    ("error::write_source_line_from_stdlib", "((line Add 1) Sub start_line)"): "start_line = max(line - 2 (saturating), 1) <= line + 1",
+    ("error::write_source_line_from_stdlib", "(start_line Sub 1)"): "start_line = max(.., 1) >= 1",
+    ("error::write_source_span_at", "(span.col_end Sub span.col_start)"):
+        "a span's columns are both measured from the same last_newline and the token's byte range has start <= end (C17 UNIT)",
+    ("sylt_tokenizer::string_to_tokens", "(char_at_byte[byte_range.start].unwrap() Sub last_newline)"):
+        "last_newline is the character index of a newline met before this token",
+    ("sylt_tokenizer::string_to_tokens", "(char_at_byte[byte_range.end].unwrap() Sub last_newline)"):
+        "last_newline is the character index of a newline met before this token",
+}
+
+
+def unsigned_sub(F, rep):
+    """`a - b` on unsigned integers panics (debug) or wraps (release) when a < b.  Every such subtraction in the five
+    crates is listed with the reason why it cannot underflow; one that is not listed - or whose reason is an invariant
+    some function can break - is a violation.  saturating_sub / checked_sub need no reason."""
+    n = 0
+    seen = set()
+    for fn in F.own_fns(["sylt_parser", "sylt_compiler", "sylt_tokenizer", "sylt_common", "sylt"]):
+        if "::test" in fn["_path"] or fn["_path"].startswith("sylt::formatter"):
+            continue
+        for b in nodes(fn_body(fn)):
+            is_sub = (b.get("k") == "Binary" and b.get("op") == "Sub") or (b.get("k") == "AssignOp" and b.get("op") in ("Sub", "SubAssign"))
+            if not is_sub:
+                continue
+            ty = b.get("ty") if b.get("k") == "Binary" else peel(b["l"]).get("ty")
+            if not ty or not any(t in ty for t in ("usize", "u8", "u16", "u32", "u64")):
+                continue
+            n += 1
+            key = (last(fn["_path"], 2), re.sub(r"\s+", " ", pp(b)))
+            seen.add(key)
+            why = UNSIGNED_SUB.get(key)
+            ok = why is not None
+            if ok and "start_line" in key[1]:
+                # the reason rests on how start_line is computed: check it
+                src = re.sub(r"\s+", " ", pp(fn_body(fn)))
+                ok = "saturating_sub(2)" in src and ".max(1)" in src
+            rep.ob("UNSIGNED-SUB", "%s|%s" % key, ok,
+                   ("`%s` cannot underflow: %s" % (key[1], why)) if ok else
+                   ("`%s` in %s is an unsigned subtraction with no guard and no invariant that every writer of its operands "
+                    "keeps%s" % (key[1], key[0], ": Context::prev() moves `curr` backwards while `last_statement` stays, so `curr` "
+                                 "can end up below it (`loop c do .. end end` panics with `attempt to subtract with overflow`)"
+                                 if "last_statement" in key[1] else "")), line_of(b))
+    rep.floor("UNSIGNED-SUB", "unsigned subtractions", n, 7)
